@@ -290,3 +290,213 @@ def index_family(run, replay):
                      assumptions=["gotree getters incl. Bitset/NumTipsLeft/NumTipsRight/TopoDepth/HashCode are read as data",
                                   "capacity 0 and load factor <= 0 are outside the constructor's domain",
                                   "the stored key of an index entry is read by reflection (the field is unexported)"])
+
+
+# ------------------------------------------------------------------------------------------------
+# C20: random selections
+
+SAMPLING_CFG = """SPECIFICATION Spec
+CONSTANTS
+  Algo = "%s"
+  N = %d
+  K = %d
+INVARIANTS Uniform EveryElementSelectable
+CHECK_DEADLOCK FALSE
+"""
+
+SAMPLING_BOUNDS = {
+    "quick": [("reservoir", 6, 1), ("reservoir", 6, 2), ("reservoir", 6, 3), ("reservoir", 3, 5), ("replace", 4, 2), ("replace", 3, 3),
+              ("perm", 5, 0), ("rotate", 5, 0), ("utree", 6, 0), ("rtree", 5, 0)],
+    "thorough": [("reservoir", 8, 1), ("reservoir", 8, 2), ("reservoir", 8, 3), ("reservoir", 8, 4), ("reservoir", 4, 6),
+                 ("replace", 5, 2), ("replace", 4, 3), ("replace", 3, 4), ("perm", 7, 0), ("rotate", 6, 0), ("utree", 7, 0), ("rtree", 6, 0)],
+}
+
+CONFORMANCE_PREDS = {"DrawCountAsModelled", "DrawRangesAsModelled", "OutcomeIsTheMachineOutcome", "ShuffleAppliesThePermutation"}
+
+
+def log_binom_pmf(n, k, p):
+    return (math.lgamma(n + 1) - math.lgamma(k + 1) - math.lgamma(n - k + 1) + k * math.log(p) + (n - k) * math.log1p(-p))
+
+
+def binom_two_sided(n, k, p):
+    """Exact two-sided tail: total probability of outcomes no more likely than k."""
+    lk = log_binom_pmf(n, k, p)
+    mean = n * p
+    sd = math.sqrt(n * p * (1 - p))
+    lo, hi = max(0, int(mean - 60 * sd) - 2), min(n, int(mean + 60 * sd) + 2)
+    if lo <= k <= hi:
+        tot = 0.0
+        for j in range(lo, hi + 1):
+            lj = log_binom_pmf(n, j, p)
+            if lj <= lk + 1e-12:
+                tot += math.exp(lj)
+        return min(1.0, tot)
+    return 0.0
+
+
+def sampling_fallback(run, whats):
+    """The recorded draws do not follow the modelled machine: the code may still be a different, correct algorithm.
+    Decide by outcome frequencies over many seeds, exact binomial tails, total false-alarm budget 1e-9."""
+    runs = 20000 if run.tier == "quick" else 100000
+    s = vk.run_driver(run, ["sample-stats", "--seed", str(run.seed), "--runs", str(runs)], None, timeout=3000)
+    cells = [c for c in s.get("cells", []) if c["what"] in whats]
+    ntests = sum(c["classes"] for c in cells) or 1
+    alpha = 1e-9 / ntests
+    bad = []
+    rep = []
+    for c in cells:
+        p = 1.0 / c["classes"]
+        counts = c["counts"]
+        worst = 1.0
+        if len(counts) > c["classes"] or any(k.startswith("error:") for k in counts):
+            bad.append((c["cell"], "outcomes outside the %d expected classes: %s" % (c["classes"], sorted(counts)[:5])))
+            continue
+        vals = list(counts.values()) + [0] * (c["classes"] - len(counts))
+        for v in vals:
+            worst = min(worst, binom_two_sided(c["runs"], v, p))
+        rep.append({"cell": c["cell"], "runs": c["runs"], "classes": c["classes"], "observed_classes": len(counts),
+                    "min": min(vals), "max": max(vals), "smallest_tail": worst})
+        if worst < alpha:
+            bad.append((c["cell"], "outcome frequencies %s over %d runs are not uniform over %d classes (tail %.3g < %.3g)"
+                        % (sorted(vals), c["runs"], c["classes"], worst, alpha)))
+    run.extra["statistical_fallback"] = {"cells": rep, "alpha_per_test": alpha, "rejected": [b[0] for b in bad]}
+    return bad
+
+
+@pipeline("C20")
+def sampling_family(run, replay):
+    run.build_harness()
+    cfg = CALC_CFG % '"C20"'
+    if replay:
+        with open(replay) as f:
+            hdr = json.loads(f.readline())
+        run.replay_of = replay
+        parts = hdr.get("case", "").split("-")
+        try:
+            seed, k = int(parts[1][1:]), int(parts[2][1:])
+        except Exception:
+            raise vk.Infra("cannot parse case label of replay file")
+        run.seed = seed
+        p = os.path.join(run.work, "replay.ndjson")
+        vk.run_driver(run, ["sample", "--seed", str(seed), "--from", str(k), "--to", str(k + 1), "--out", p], p)
+        r = vk.validate_trace(run, p, "TraceCalc.tla", cfg)
+        collect(run, [r])
+        run.traces = 1
+        run.samples += vk.sample_events(r["path"], 1)
+    else:
+        for bi, (algo, n, k) in enumerate(SAMPLING_BOUNDS[run.tier]):
+            vk.run_model(run, "Sampling-%s-%d-%d" % (algo, n, k), "Sampling.tla", SAMPLING_CFG % (algo, n, k), workers=2, heap="4g")
+        run.extra["model_bounds"] = [dict(algo=a, n=n, k=k) for a, n, k in SAMPLING_BOUNDS[run.tier]]
+        ncases = 1600 if run.tier == "quick" else 40000
+        shards = vk.NCPU
+        per = math.ceil(ncases / shards)
+
+        def job(i):
+            def f():
+                path = os.path.join(run.work, "smp-%d.ndjson" % i)
+                s = vk.run_driver(run, ["sample", "--seed", str(run.seed), "--from", str(i * per), "--to", str(min(ncases, (i + 1) * per)),
+                                        "--out", path], path)
+                r = vk.validate_trace(run, path, "TraceCalc.tla", cfg)
+                r["summary"] = s
+                return r
+            return f
+        res = vk.parallel([job(i) for i in range(shards)])
+        collect(run, res)
+        for r in res:
+            run.traces += r["summary"].get("events", 0)
+        run.samples += vk.sample_events(res[0]["path"], 2)
+    # draw-conformance failures are not verdicts by themselves
+    conf = [f for f in run.fails if f[1] in CONFORMANCE_PREDS]
+    if conf:
+        whats = set()
+        for f in conf:
+            try:
+                with open(f[6]) as fh:
+                    ev = json.loads(fh.readlines()[int(f[4]) - 1])
+                whats.add(ev["args"].get("what", "ShuffleTips") if ev["kind"] == "Draws" else "ShuffleTips")
+            except Exception:
+                pass
+        run.extra["draw_conformance_failures"] = len(conf)
+        bad = sampling_fallback(run, whats)
+        keep = [f for f in run.fails if f[1] not in CONFORMANCE_PREDS]
+        if bad:
+            first = conf[0]
+            for cell, why in bad:
+                keep.append(["C20", "UniformOutcomeFrequencies", cell, "stat", first[4], first[5], first[6], why])
+                vk.log("statistical fallback:", cell, why)
+        else:
+            run.notes.append(["DRIFT", "the code's draws do not follow the modelled machine but outcome frequencies are uniform"])
+            print("NOTE: draws do not follow the modelled machine (%d recorded runs); outcome frequencies are uniform: no violation" % len(conf))
+        run.fails = keep
+    return vk.finish(run,
+                     rule="model: the selection machines of Sampling.tla lifted to distributions (state = outcome -> number of equiprobable "
+                          "draw sequences), uniformity checked exactly by TLC at every size of the bound; real code: every recorded run "
+                          "(gotree sample, sample --replace, prune --random, RotateNeighbors, ShuffleTips, RandomUniformBinaryTree over seeds "
+                          "and sizes incl. k>=n) logs its draws through the verif hooks and TLC replays them through the same step function: "
+                          "ranges and outcome must be the machine's; otherwise outcome frequencies over many seeds decide (exact binomial "
+                          "tails, total false-alarm budget 1e-9)",
+                     assumptions=["math/rand's Intn is uniform on its range; rand.Perm is the inside-out shuffle proved uniform by the 'perm' machine",
+                                  "the verif hooks report the draws actually used (a removed hook makes the run non-conforming and the "
+                                  "statistical fallback decides)"])
+
+
+# ------------------------------------------------------------------------------------------------
+# C16: generators
+
+GEN_MODEL_CFG = """SPECIFICATION Spec
+CONSTANTS
+  Gen = "%s"
+  Rooted = %s
+  MaxTips = %d
+  Emit = TRUE
+INVARIANTS IsBinaryTree IsCaterpillar EmitCase
+CHECK_DEADLOCK FALSE
+"""
+
+
+@pipeline("C16")
+def generator_family(run, replay):
+    run.build_harness()
+    if replay:
+        return calc_replay(run, replay)
+    import models
+    maxtips = 6 if run.tier == "quick" else 8
+    outs = []
+    for g in ("uniform", "yule", "caterpillar"):
+        for r in ("TRUE", "FALSE"):
+            outs.append(vk.run_model(run, "GenModel-%s-%s" % (g, r), "GenModel.tla", GEN_MODEL_CFG % (g, r, maxtips), workers=4, heap="4g"))
+    # the uniform machine reaches every labelled topology (lifted model): the enumerator's target set
+    for algo, n in (("utree", 6 if run.tier == "quick" else 7), ("rtree", 5 if run.tier == "quick" else 6)):
+        vk.run_model(run, "Sampling-%s-%d" % (algo, n), "Sampling.tla", SAMPLING_CFG % (algo, n, 0), workers=2, heap="4g")
+    cases_path, n = models.emit_cases(run, "C16", outs)
+    # sizes the insertion model does not produce: below the minimum, balanced / star shapes, the enumerator
+    extra = []
+    for g in ("uniform", "yule", "caterpillar"):
+        for r in (True, False):
+            for k in (-1, 0, 1, 2, 16, 33):
+                extra.append(dict(gen=g, n=k, rooted=r))
+    for r in (True, False):
+        for d in (-1, 0, 1, 2, 3, 4, 5):
+            extra.append(dict(gen="balanced", n=d, rooted=r))
+        for k in range(0, 8 if run.tier == "quick" else 9):
+            if not (r and k >= 7 and run.tier == "quick"):
+                extra.append(dict(gen="topologies", n=k, rooted=r))
+    for k in (-1, 0, 1, 2, 3, 4, 9, 40):
+        extra.append(dict(gen="star", n=k, rooted=False))
+    with open(cases_path, "a") as f:
+        for e in extra:
+            f.write(json.dumps(dict(fam="C16", pat=0, ref=dict(root=0, nodes=[]), trees=[], extra=e)) + "\n")
+    run.extra["model_bounds"] = dict(maxtips=maxtips, generators=["uniform", "yule", "caterpillar"], fixed_extra_cases=len(extra))
+    models.replay_cases(run, "C16", cases_path, n + len(extra), "replay-calc", "TraceCalc.tla", CALC_CFG % '"C16"', per_shard=8)
+    q, t, mq, mt = CALC_BOUNDS["C16"]
+    ncases, mtips = (q, mq) if run.tier == "quick" else (t, mt)
+    calc_random(run, "C16", ncases, mtips)
+    return vk.finish(run,
+                     rule="model: the insertion machines of GenModel.tla (every choice of insertion branch, invariants: binary tree on the tips "
+                          "inserted so far, caterpillar shape) and the lifted uniform machine reaching every labelled topology; real code: "
+                          "every (generator, size, rootedness) of the model plus sizes around and below the documented minimum, balanced/star "
+                          "shapes and the enumerator, several seeds each, plus random sizes; each returned tree is projected as returned "
+                          "(index fields included) and judged by TLC: well-formed, binary, requested tips and rootedness, lengths >= 0, shape, "
+                          "indexes fresh, enumerations consistent; enumerator: count (2n-5)!! / (2n-3)!!, all binary, pairwise distinct",
+                     assumptions=["two tips joined by one branch (unrooted generators with n = 2, balanced depth 1 unrooted) is outside the "
+                                  "judged domain: only 'no crash' is claimed there", "gotree getters are trusted"])
